@@ -118,6 +118,36 @@ func runC12(c *Ctx, w *World, r *Report) {
 	r.Rule("R-SIB", "sibling congruence: the in-range result expression of SafeGet equals Get's, SafeGet1's equals Get1's (value numbers over parameters by position)")
 	r.Rule("R-EXTEND", "Builder.Extend: end = Offset+size or Offset+last+1 (when last >= size); Words grows until end <= 64*len(Words) before any bit is written; bit written = Offset + p for every listed p; Offset advances by exactly size")
 	r.Rule("R-SETBIT", "Builder.Set: grows until (pos>>6) < len(Words), ORs (value&1) << (pos&63) into Words[pos>>6], and moves Offset to pos+1 exactly when Offset <= pos")
+	r.Rule("R-LASTPOS", "Of and Builder.Extend read the last listed position (positions[len-1]) only on a path where the list is known to be non-empty: the empty list is a valid input (no bit set), reading its last element panics")
+	for _, ln := range []string{"bitmap.Of", "bitmap.(*Builder).Extend"} {
+		lf := fns[ln]
+		lfa := w.FA(lf)
+		badL := ""
+		nlast := 0
+		eachInstr(lf, func(ins ssa.Instruction) {
+			v, ok := ins.(ssa.Value)
+			if !ok {
+				return
+			}
+			cont, idx, ok := asElemLoad(v)
+			if !ok {
+				return
+			}
+			if _, isParam := cont.(*ssa.Parameter); !isParam {
+				return
+			}
+			lenL := lfa.lenOf(cont, 0)
+			d := lenL.Sub(lfa.Lin(idx))
+			if !d.IsConst() || d.K < 1 {
+				return
+			}
+			nlast++
+			if bd := lfa.BoundsAt(ins.Block(), lenL); !(bd.HasLo && bd.Lo >= d.K) {
+				badL = fmt.Sprintf("element len-%d of the position list is read at %s where the list is only known to have %s elements: the empty list panics", d.K, w.InstrPos(ins), bd)
+			}
+		})
+		r.Check(badL == "", "R-LASTPOS", ln, w.Pos(lf.Pos()), badL, fmt.Sprintf("%d reads of the last position, each under len >= 1", nlast))
+	}
 	r.Rule("R-REBASE", "OfMany: element p of sub-list i is rebased to base_i + p with base_0 = 0 and base_{i+1} = base_i + sizes[i]")
 	r.Rule("R-COVER", "OfMany: the bit count handed to Of is, on every path, at least the sum of all sizes and larger than every rebased position (a position may be >= the size of its own sub-bitmap, so the rebased list need not be ascending and Of's own last+1 does not bound it): a loop-carried maximum that is only ever replaced by a value not smaller, and that after every stored position p is >= p+1. Otherwise Of allocates too few words and its fill loop indexes past them")
 
